@@ -87,7 +87,8 @@ Definition fits_slice (r : ares) : Prop := Z.of_nat (length (ar_prog r)) + 1 < 2
 Definition consistent_report (w : weights) (n : Z) (rs : list ares) (o : sout) : Prop :=
   so_n o = n /\
   (* the selected result exists; the table lists cost, doubles, adds of every result *)
-  (exists b, nth_error rs (so_best o) = Some b /\ so_cost o = cost_of w (count (ar_prog b))) /\
+  (exists b, nth_error rs (so_best o) = Some b /\ so_cost o = cost_of w (count (ar_prog b)) /\
+             report (ar_prog b) = Ok (so_stdout o)) /\
   so_table o = map (fun r => (cost_of w (count (ar_prog r)), count (ar_prog r))) rs /\
   (* minimal over all algorithm results, and the first such *)
   (forall j r, nth_error rs j = Some r -> (so_cost o <= cost_of w (count (ar_prog r)))%Q) /\
@@ -118,9 +119,10 @@ Proof.
   assert (Hnd : NoDup (ar_chain b)) by apply Hch.
   destruct (evaluate_ok_wf _ _ Hev) as (_ & Lc).
   destruct (detail_lines_ok (ar_prog b) O (ar_chain b) ltac:(lia)) as (det & -> & Ldet). cbn [obind].
-  destruct (report_consistent (ar_prog b) (ar_chain b) Hev Hnd Hs) as (text & t & ir & -> & Et & Ep & El & Ec).
+  destruct (report_consistent (ar_prog b) (ar_chain b) Hev Hnd Hs) as (text & t & ir & Erp & Et & Ep & El & Ec).
+  rewrite Erp.
   eexists. split; [reflexivity|]. unfold consistent_report. cbn [so_n so_best so_cost so_table so_stdout].
-  split; [reflexivity|]. split; [exists b; split; [exact Eb|exact Hc]|]. split; [reflexivity|]. split; [|split; [|split]].
+  split; [reflexivity|]. split; [exists b; split; [exact Eb|split; [exact Hc|exact Erp]]|]. split; [reflexivity|]. split; [|split; [|split]].
   - intros j r Hj. apply (Hmin j (count (ar_prog r))). rewrite nth_error_map, Hj. reflexivity.
   - intros j r Lj Hj. apply (Hfirst j (count (ar_prog r)) Lj). rewrite nth_error_map, Hj. reflexivity.
   - destruct (detail_lines_ok (map cop (ar_prog b)) O (ar_chain b) ltac:(rewrite map_length; lia)) as (lines & Hd & Ll).
@@ -129,6 +131,27 @@ Proof.
     split; [rewrite Hc; destruct (count (ar_prog b)); reflexivity|]. split; [exact Hch|]. split; [exact Hlast|].
     exists ir, (map cop (ar_prog b)). split; [exact El|]. split; [exact Ll|]. rewrite Ec. destruct (count (ar_prog b)); reflexivity.
   - unfold fmt_cmd. rewrite Ep. cbn [obind]. rewrite Et. reflexivity.
+Qed.
+
+(* ---- the target 1: the only chain is [1], the program is empty, the script is "return 1" ---- *)
+Lemma good_one_empty : forall r, good_ares 1 r -> ar_prog r = [].
+Proof.
+  intros r (_ & Hch & Hlast & Hlen & _). destruct Hch as ((t & Et) & Hnd & _).
+  rewrite Et in *. destruct t as [|x t]; [destruct (ar_prog r); [reflexivity|discriminate Hlen]|].
+  exfalso. inversion Hnd as [|? ? Hnot _]. apply Hnot. rewrite <- Hlast.
+  clear. revert x. induction t as [|y t IH]; intros x; [left; reflexivity|].
+  right. change (last (1 :: x :: y :: t) 0) with (last (1 :: y :: t) 0). apply (IH y).
+Qed.
+
+Lemma report_nil : report [] = Ok ($"return  1" ++ [10%N]).
+Proof. vm_compute. reflexivity. Qed.
+
+Lemma consistent_one : forall w rs o, Forall (good_ares 1) rs -> consistent_report w 1 rs o ->
+  so_stdout o = $"return  1" ++ [10%N] /\ so_cost o == 0.
+Proof.
+  intros w rs o Hg (_ & (b & Hb & Hc & Hr) & _). rewrite Forall_forall in Hg.
+  rewrite (good_one_empty b (Hg b (nth_error_In _ _ Hb))) in Hr, Hc. rewrite report_nil in Hr.
+  injection Hr as <-. split; [reflexivity|]. rewrite Hc. unfold cost_of, count. cbn [filter length fst snd]. ring.
 Qed.
 
 (* ---- search_consistent: the property, given what C01 proves about the ensemble ----
